@@ -238,10 +238,11 @@ class Graph(BaseGraph):
         if (u, v) in self.edgeset:
             return
         u, v = min(u, v), max(u, v)
-        pos = bisect_right(self.adjlist[u], v)
-        self.adjlist[u].insert(pos, v)
-        pos = bisect_right(self.adjlist[v], u)
-        self.adjlist[v].insert(pos, u)
+        # look both lists up before changing anything: a non integer
+        # vertex must fail here, not between the two insertions
+        adju, adjv = self.adjlist[u], self.adjlist[v]
+        adju.insert(bisect_right(adju, v), v)
+        adjv.insert(bisect_right(adjv, u), u)
         self.m += 1
         self.edgeset.add((u, v))
         self.edgeset.add((v, u))
